@@ -415,7 +415,7 @@ func check(c cfg, r *run, outcomes map[string]struct{}) func(*vsched.Exec, vsche
 	}
 }
 
-var dyn2Tags = [][]string{{"region:a", "region:b", "service:x"}, {"service:y", "other:x"}, {"region:a", "service:x"}, {"other:x"}}
+var dyn2Tags = [][]string{{"region:a", "region:b", "service:x"}, {"service:urn:team:y", "other:x"}, {"region:a", "service:x"}, {"other:x"}}
 
 // forwarderFromConfig builds the forwarder the way the server does: from the http-transport configuration keys.
 func forwarderFromConfig(pool *transport.TransportPool, fc flush.Coordinator, kv map[string]any) (*statsd.HttpForwarderHandlerV2, error) {
